@@ -360,6 +360,17 @@ def mutate(data, m):
                }[m[2]]
         nb = body[:p] + len(new).to_bytes(2, "big") + new + body[p + 2 + ln:]
         return fixlen(t, nb)
+    if k == "lastvec":
+        # the vector that ends the message (signatures, verify data, shares
+        # sit there) filled with a boundary value of the same length
+        for p in range(len(body) - 2, -1, -1):
+            ln = len(body) - p - 2
+            if ln >= 1 and int.from_bytes(body[p:p + 2], "big") == ln:
+                new = {"ones": b"\xff" * ln, "zero": bytes(ln),
+                       "one": bytes(ln - 1) + b"\x01",
+                       "high": b"\x80" + bytes(ln - 1)}[m[1]]
+                return fixlen(t, bytes(body[:p + 2]) + new)
+        return None
     if k == "bomb":
         # CompressedCertificate: a stream that inflates far beyond the
         # (small, in-bounds) length it declares
@@ -898,6 +909,8 @@ def mut_strategy():
                   st.sampled_from(["zero", "one", "max", "plus1", "minus1",
                                    "half"])),
         st.just(("zero",)), st.just(("empty",)),
+        st.tuples(st.just("lastvec"), st.sampled_from(
+            ["ones", "zero", "one", "high"])),
         st.tuples(st.just("hugelen"), i),
         st.tuples(st.just("type"), st.sampled_from(
             [0, 1, 2, 4, 5, 8, 11, 12, 13, 14, 15, 16, 20, 22, 24, 25, 67,
@@ -1014,7 +1027,9 @@ def explicit(tier, seed):
              ["setlen", 0, 1, "zero"], ["vec", 0, "empty", 0],
              ["vec", 1, "zero", 0], ["vec", 0, "huge", 0],
              ["vec", 1, "empty", 0], ["vec", 2, "empty", 0],
-             ["vec", 3, "empty", 0]] + [
+             ["vec", 3, "empty", 0], ["lastvec", "ones"],
+             ["lastvec", "zero"], ["lastvec", "one"],
+             ["lastvec", "high"]] + [
                  ["vec", 0, "empty", st_] for st_ in range(1, 8)]
     ext_fixed = [["ext", op, w, 3] for op in EXT_OPS for w in range(
         14 if tier == "thorough" else 6)]
